@@ -59,6 +59,14 @@ def cells_for(tier, prop):
             for fn in ("cp_estimate", "bp_estimate"):
                 for hint in (None, ["D", "C", "B", "A"], ["A", "B", "C", "D"]):
                     out.append(dict(NC=4, B=2, winner=winner, fn=fn, hint=hint))
+        # ballot types with symbolic multiplicities 1..3 (profiles of up to 9 ballots)
+        for winner in cands:
+            for fn in ("cp_estimate", "bp_estimate"):
+                out.append(dict(NC=3, B=2, winner=winner, fn=fn, hint=None, mult=3))
+                out.append(dict(NC=3, B=3, winner=winner, fn=fn, hint=None, mult=3))
+    else:
+        out.append(dict(NC=3, B=2, winner="A", fn="cp_estimate", hint=None, mult=2))
+        out.append(dict(NC=3, B=2, winner="B", fn="bp_estimate", hint=None, mult=2))
     return out
 
 
